@@ -415,7 +415,7 @@ structure GoodDisk (S : Tree → Prop) (hist : List (Option Tree)) (db : NDB) : 
   cons : Cons H S db.nodes
   roots : ∀ v, aget v db.roots = (histAt hist v).map (hashOpt H)
   present : ∀ ot ∈ hist, ∀ t, ot = some t → Present H db.nodes t
-  orph : ∀ e ∈ db.orphans, ∃ o, S o ∧ hashTree H o = e.1.2.2 ∧ o.version = e.1.2.1
+  orph : ∀ e ∈ db.orphans, ∃ o, S o ∧ hashTree H o = e.1.2.2 ∧ o.version = e.1.2.1 ∧ e.2 = e.1.2.2
 
 /-- The in-memory tree of a store that has saved (or loaded the latest of) the versions `hist`. -/
 structure GoodTree (S : Tree → Prop) (hist : List (Option Tree)) (t : MTree) : Prop where
@@ -582,7 +582,7 @@ theorem saveVersion_good (hH : HashOK H) {S : Tree → Prop} (hi : Inj H S) {his
       · intro e he
         simp only at he
         rcases mem_foldl_aput _ _ _ _ _ he with ⟨o, ho, rfl⟩ | he
-        · refine ⟨o, ?_, rfl, rfl⟩
+        · refine ⟨o, ?_, rfl, rfl, rfl⟩
           unfold orphansOf at ho
           have hm := (List.mem_filter.mp ho).1
           rw [g.lastSaved] at hm
